@@ -283,7 +283,7 @@ Section Equiv.
     - (* for *) cbn [supp] in Hs. apply andb_prop in Hs as [Hb Ho]. apply loop_safe; auto.
     - (* try *) apply try_safe; auto.
     - (* with *) cbn [supp] in Hs. apply with_safe; auto.
-    - (* assert *) destruct (q_cond h k st) as [[|] st1]; reflexivity.
+    - (* assert *) destruct (q_cond h k st) as [[|] st1]; [reflexivity|]. destruct (assert_fail h msg st1); reflexivity.
     - (* func *) apply call_safe.
   Qed.
 
@@ -299,7 +299,7 @@ Section Equiv.
       apply (loop_agree _ _ _ (IH cur) _ inl); assumption.
     - (* try *) apply (try_agree _ _ IH inl); assumption.
     - (* with *) cbn [supp] in Hs. apply (with_agree _ _ (IH cur) inl); assumption.
-    - (* assert *) destruct (q_cond h k st) as [[|] st1]; reflexivity.
+    - (* assert *) destruct (q_cond h k st) as [[|] st1]; [reflexivity|]. destruct (assert_fail h msg st1); reflexivity.
     - (* func *) cbn [supp] in Hs. apply call_agree; [apply IH|apply py_stmt_safe|assumption].
   Qed.
 
@@ -354,7 +354,7 @@ Definition w_d201_mgrs : mgr_table := [(1, (Some (exc_of 6), XRet true))]%N.
 
 Definition differs (cfg : deviations) (sc : scripts) (mg : mgr_table) (body : list stmt) : Prop :=
   supported body = true /\
-  ps_exec (chost sc mg w_classes) cfg 20 body sc <> py_exec (chost sc mg w_classes) 20 body sc.
+  ps_exec (chost sc mg [] w_classes) cfg 20 body sc <> py_exec (chost sc mg [] w_classes) 20 body sc.
 
 Lemma refuted_D8 : differs only_d8 w_d8_scripts [] w_d8_body.
 Proof. split; [reflexivity|]. vm_compute. discriminate. Qed.
@@ -368,13 +368,21 @@ Lemma refuted_D201 : differs only_d201 [] w_d201_mgrs w_d201_body.
 Proof. split; [reflexivity|]. vm_compute. discriminate. Qed.
 
 (* what the reference computes on the witnesses (sanity: these are the CPython results of the findings) *)
-Example py_d8 : py_exec (chost w_d8_scripts [] w_classes) 20 w_d8_body w_d8_scripts =
+Example py_d8 : py_exec (chost w_d8_scripts [] [] w_classes) 20 w_d8_body w_d8_scripts =
   ([EvIter 1; EvN 1 true; EvT 1; EvIter 2; EvN 2 true; EvT 2; EvN 2 false; EvT 3;
     EvN 1 true; EvT 1; EvIter 2; EvN 2 true; EvT 2; EvN 2 false; EvT 3; EvN 1 false; EvT 6]%N, CRet None).
 Proof. vm_compute. reflexivity. Qed.
-Example ps_d8 : ps_exec (chost w_d8_scripts [] w_classes) only_d8 20 w_d8_body w_d8_scripts =
+Example ps_d8 : ps_exec (chost w_d8_scripts [] [] w_classes) only_d8 20 w_d8_body w_d8_scripts =
   ([EvIter 1; EvN 1 true; EvT 1; EvIter 2; EvN 2 true; EvT 2; EvN 2 false; EvT 3; EvT 4; EvT 5;
     EvN 1 true; EvT 1; EvIter 2; EvN 2 true; EvT 2; EvN 2 false; EvT 3; EvT 4; EvT 5; EvN 1 false; EvT 6]%N, CRet None).
+Proof. vm_compute. reflexivity. Qed.
+
+(* the message expression of an assert is evaluated only when the test is false: a passing assert leaves no
+   EvMsg event (and an exception its message would raise does not happen); a failing one evaluates it first *)
+Definition w_assert_body : list stmt := [SAssert 1 (Some 2); STrace 1; SAssert 3 (Some 4); STrace 2]%N.
+Example py_assert_msg :
+  py_exec (chost [(1, [1]); (3, [0])]%N [] [(2, Some (exc_of 8)); (4, None)]%N w_classes) 20 w_assert_body [(1, [1]); (3, [0])]%N =
+  ([EvC 1 true; EvT 1; EvC 3 false; EvMsg 4]%N, CExc (exc_of cls_AssertionError)).
 Proof. vm_compute. reflexivity. Qed.
 
 (* the hypotheses of flow_equiv are inhabited by a non-trivial skeleton: every construct, nested *)
@@ -382,7 +390,7 @@ Definition ex_body : list stmt :=
   [STrace 1;
    SFor 1 [STry [SWith [1; 2] [SIf 2 [SBreak] [SContinue]]]
                 [(MCls [6; 8], Some 1, [SProbe 3 1; SReraise]); (MAny, None, [SReturn (Some 3)])]
-                [SWhile 4 [SAssert 5] [SBreak]]
+                [SWhile 4 [SAssert 5 None; SAssert 7 (Some 8)] [SBreak]]
                 [STrace 2; SFunc 6 [SRaise 7 (Some 8)]]]
           [SPass];
    SReturn None]%N.
